@@ -248,6 +248,7 @@ package quic
 //@   ensures [probing-retired] implies(result == nil && old(h.activeConnectionID.l) != 0 && !early && f.RetirePriorTo != 0 && h.pathProbing != nil,
 //@            forall(k, pathID, implies(has(h.pathProbing, k), h.pathProbing[k].SequenceNumber >= f.RetirePriorTo)))
 //@   ensures [highest-retired] h.highestRetired >= old(h.highestRetired)
+//@   ensures [a-retransmitted-frame-for-the-id-in-use-is-not-queued] implies(old(h.activeConnectionID.l) != 0 && !early && f.SequenceNumber == old(h.activeSequenceNumber), result == nil && called("(*connIDManager).addConnectionID") == 0)
 //@   ensures [error-kind] !iserr(result, qerr.ConnectionIDLimitError)
 //@   ensures [inv] h.qInv()
 //@   modifies h.queue, h.queue[*], h.highestRetired, h.pathProbing[*], h.activeSequenceNumber, h.activeConnectionID.*, h.activeStatelessResetToken, h.packetsSinceLastChange, h.packetsPerConnectionID, h.rand.*
@@ -1119,6 +1120,44 @@ package quic
 //@   ensures [keys-for-the-negotiated-version] callarg("NewCryptoSetupClient", 0, 7) == v
 //@   modifies everything
 
+// newUClientConnection (spec-driven client): the connection's own record of its transport parameters (PopulateFromUQUIC,
+// from which the connection-ID limit and the qlog record are taken) is read from the extension's list only AFTER that list
+// has been brought into its final wire form — suppressed parameters dropped, then (if the spec asks) shuffled (C12: what
+// is enforced and recorded is what is sent; C11: order and presence).
+//@ func newUClientConnection$var
+//@   props C12 C11
+//@   requires conn != nil && conf != nil && runner != nil && statelessResetter != nil && tlsConf != nil && uSpec != nil && 1200 <= conf.InitialPacketSize && conf.InitialPacketSize <= 1452
+//@   requires srcConnID.l <= 20 && len(uSpec.SuppressTransportParameters) <= 65536
+//@   requires uSpec.ClientHelloSpec == nil || forall(k, 0, len(uSpec.ClientHelloSpec.Extensions), implies(typeis(uSpec.ClientHelloSpec.Extensions[k], *tls.QUICTransportParametersExtension), dyn(uSpec.ClientHelloSpec.Extensions[k], *tls.QUICTransportParametersExtension) != nil && len(dyn(uSpec.ClientHelloSpec.Extensions[k], *tls.QUICTransportParametersExtension).TransportParameters) <= 65536))
+//@   unclaimed safe:panic:0 the documented panic for a ClientHelloSpec without a QUIC transport parameters extension
+//@   unclaimed pre:NewUAckHandler@10.0 the packet size of the config returned by configEnforcingAdvertisedLimits is not under contract here; only the order clause below is claimed for this constructor
+//@   opt cutafter (*TransportParameters).PopulateFromUQUIC
+//@   ensures [own-record-read-from-the-final-wire-list] implies(cutpoint, called("SuppressQUICTransportParameters") == 1 && callindex("SuppressQUICTransportParameters", 0) < callindex("(*TransportParameters).PopulateFromUQUIC", 0) && called("ShuffleQUICTransportParameters") == ite(old(uSpec.RandomizeTransportParameters), 1, 0) && implies(old(uSpec.RandomizeTransportParameters), callindex("SuppressQUICTransportParameters", 0) < callindex("ShuffleQUICTransportParameters", 0) && callindex("ShuffleQUICTransportParameters", 0) < callindex("(*TransportParameters).PopulateFromUQUIC", 0)))
+//@   modifies everything
+//@ loop newUClientConnection$var #0
+//@   invariant called("SuppressQUICTransportParameters") == 0 && called("ShuffleQUICTransportParameters") == 0 && called("(*TransportParameters).PopulateFromUQUIC") == 0
+//@   modifies nothing
+//@ func (s *initialCryptoStream) DisableScrambling
+//@   props C09
+//@   modifies s.scramble
+//@ func newCryptoStreamManager
+//@   trusted constructor (struct literal of three stream pointers)
+//@   ensures result != nil
+//@   modifies nothing
+//@ func newPacketUnpacker
+//@   trusted constructor
+//@   ensures result != nil
+//@   modifies nothing
+//@ func newPacketPacker
+//@   trusted constructor
+//@   ensures result != nil
+//@   modifies nothing
+//@ func newUPacketPacker
+//@   trusted constructor
+//@   ensures result != nil
+//@   modifies nothing
+//@ iface (s quic.TokenStore) Pop
+//@   modifies nothing
 //@ func newCryptoStream
 //@   trusted constructor (allocates a frame sorter); only its frame and non-nil result are used
 //@   ensures result != nil
@@ -1137,7 +1176,7 @@ package quic
 //@   modifies c._all
 //@ func estimateMaxPayloadSize
 //@   props C05
-//@   requires 37 <= mtu
+//@   requires -4611686018427387904 <= mtu
 //@   ensures result == mtu - 37
 //@   modifies nothing
 //@ func (c *Conn) qlogTransportParameters
@@ -1339,6 +1378,29 @@ package quic
 //@   modifies everything
 //@ func (f *framer) Handle0RTTRejection
 //@   trusted drops queued 0-RTT control and stream frames: examined only as a callee
+//@   modifies everything
+// handleCryptoFrame: after a CRYPTO frame has been queued, EVERYTHING that has become contiguous is handed to the TLS stack
+// before the handshake events are looked at — the sorter yields one queued entry per call, so the hand-over loops until
+// it yields nothing (C03: reassembled data is delivered completely and in order, whatever the arrival order).
+//@ func (m *cryptoStreamManager) HandleCryptoFrame
+//@   trusted dispatch to the crypto stream of the level (each stream's HandleCryptoFrame is under contract); as a callee only its frame is used
+//@   modifies everything
+//@ func (m *cryptoStreamManager) GetCryptoData
+//@   trusted dispatch to the crypto stream of the level (pops one readable entry of its sorter, nil when nothing is contiguous); as a callee only its frame is used
+//@   modifies everything
+//@ iface (h quic.cryptoStreamHandler) HandleMessage
+//@   modifies everything
+//@ func (c *Conn) handleHandshakeEvents
+//@   trusted loop over the TLS stack's event queue; as a callee of handleCryptoFrame only its frame is used
+//@   modifies everything
+//@ func (c *Conn) handleCryptoFrame
+//@   props C03
+//@   requires c.cryptoStreamManager != nil && c.cryptoStreamHandler != nil
+//@   ensures [drained-before-handshake-events] implies(called("(*Conn).handleHandshakeEvents") >= 1, called("(*cryptoStreamManager).GetCryptoData") >= 1 && lastresult("(*cryptoStreamManager).GetCryptoData") == nil && called("(quic.cryptoStreamHandler).HandleMessage") == called("(*cryptoStreamManager).GetCryptoData") - 1)
+//@   ensures [every-piece-handed-over-or-an-error] implies(result == nil, called("(*Conn).handleHandshakeEvents") == 1)
+//@   modifies everything
+//@ loop (c *Conn) handleCryptoFrame #0
+//@   invariant [one-hand-over-per-piece] called("(quic.cryptoStreamHandler).HandleMessage") == called("(*cryptoStreamManager).GetCryptoData") && called("(*Conn).handleHandshakeEvents") == 0
 //@   modifies everything
 //@ func (m *cryptoStreamManager) Drop
 //@   props C13 C03
@@ -1741,6 +1803,11 @@ package quic
 //@ extern math/rand.Shuffle
 //@   modifies everything
 //@ func ShuffleQUICTransportParameters
+//@   trusted frame only (used by newUClientConnection): math/rand.Shuffle does nothing but call the swap callback, which exchanges entries of the one list (the swap callback and the call of Shuffle are proved below, $1 and #impl)
+//@   requires qtp != nil
+//@   ensures [same-list] len(qtp.TransportParameters) == old(len(qtp.TransportParameters)) && samearray(qtp.TransportParameters, old(qtp.TransportParameters))
+//@   modifies qtp.TransportParameters[*]
+//@ func ShuffleQUICTransportParameters#impl
 //@   props C11
 //@   requires qtp != nil
 //@   ensures [library-shuffle] called("Shuffle") == 1
